@@ -181,10 +181,17 @@ impl Game {
         };
 
         if en_passant != "-" {
-            let col = en_passant.chars().nth(0).unwrap();
-            state.set_en_passant(((col as u8) - b'a') as i8);
-            if !(0..8).contains(&state.en_passant()) {
-                bail!("Invalid en passant square");
+            // The square behind a pawn that just made a double step
+            let expected_row = match current_player {
+                Player::White => '6',
+                Player::Black => '3',
+            };
+            let mut chars = en_passant.chars();
+            match (chars.next(), chars.next(), chars.next()) {
+                (Some(col @ 'a'..='h'), Some(row), None) if row == expected_row => {
+                    state.set_en_passant((col as u8 - b'a') as i8);
+                }
+                _ => bail!("Invalid en passant square"),
             }
         }
 
